@@ -394,15 +394,18 @@ static off64_t _GD_GetBOF(DIRFILE *restrict D, gd_entry_t *restrict E,
       if (!D->error) {
         *ds -= E->EN(phase,shift);
 
-        /* remove whole frames from delta-samples */
-        while (*ds < 0) {
-          *ds += *spf;
-          bof--;
+        /* remove whole frames from delta-samples (in one step: the shift
+         * comes from the metadata and may be astronomically large) */
+        if (*ds < 0) {
+          const int64_t nf = (-(*ds + 1)) / *spf + 1;
+          *ds += nf * *spf;
+          bof -= nf;
         }
 
-        while (*ds >= *spf) {
-          *ds -= *spf;
-          bof++;
+        if (*ds >= *spf) {
+          const int64_t nf = *ds / *spf;
+          *ds -= nf * *spf;
+          bof += nf;
         }
 
         /* The beginning-of-frame may not be before frame zero */
